@@ -11,16 +11,133 @@ NOTE = ("Trusted base: Coq 8.16.1 kernel (no native_compute; vm_compute only in 
         "ExtrOcamlString only (no Extract Constant) and ocaml/main.ml; the correspondence harness; CPython, pandas, "
         "numpy, scipy are modelled, not verified. No axioms declared; Print Assumptions output is in the evidence.")
 
+COMMON = (" Tie: the model is hand-written Gallina mirroring the Python branch by branch; its tables are regenerated "
+          "from /repo by harness/translate.py and equated in coq/Generated/Tie.v, its procedures are run (extracted "
+          "to OCaml) against the implementation on the same generated inputs; a direct oracle evaluates the "
+          "property's own statement on the implementation and supplies the failing input when a proof, the tie or "
+          "the correspondence breaks.")
+
 CLAIMED = {
     "C01": dict(
         text=("Theorems (Coq, unbounded): the parser model accepts exactly the sentences of a stratified precedence "
-              "grammar and returns the tree the grammar dictates (sound + complete, hence unambiguous; fuel never "
-              "exhausted); parentheses are transparent to the resolver. The model is tied to /repo by regenerated "
-              "tables (Tie.v) and by a correspondence on exhaustive short token strings, grammar-generated sentences "
-              "with random whitespace and random ASCII; a direct oracle (token accounting, level discipline, "
-              "whitespace variants, fully parenthesised form) searches a failing input when anything breaks."),
-        design_ref="DESIGN.md section 5, C01",
-        technique="Coq proof (parser sound/complete w.r.t. grammar) + translator tie + differential correspondence"),
+              "grammar and returns the tree the grammar dictates (C01_parse_sound, C01_parse_iff: sound + complete), "
+              "the grammar is unambiguous, the fuel is never exhausted, parentheses are transparent to the resolver. "
+              "Scanning (whitespace) is covered by the correspondence, not by a theorem." + COMMON),
+        design_ref="DESIGN.md section 5 C01, section 10",
+        technique="Coq proof: parser sound+complete w.r.t. precedence grammar; translator tie; differential correspondence"),
+    "C02": dict(
+        text=("Theorem (Coq): on the documented fragment the term-algebra model (every operator overload of terms.py) "
+              "accepts the formula and its result equals the Wilkinson set semantics (Spec/Wilkinson.v); refuted "
+              "witnesses for the three listed findings. See the property file for the exact fragment." + COMMON),
+        design_ref="DESIGN.md section 5 C02, section 10",
+        technique="Coq proof: refinement of set semantics by the operator model; differential correspondence on exhaustive operator trees"),
+    "C03": dict(
+        text=("Theorems (Coq, unbounded): the redundancy analysis returns codings whose subset-lattice intervals "
+              "partition the union of the down-closures of the terms, for every group of terms in every order; the "
+              "Python assertions cannot fail; fuel suffices. Per-factor algebra in C13. NOT proved: the Kronecker "
+              "bridge from the partition to rank/span of the matrix, and the caller's one-coding-per-term restriction "
+              "(listed findings KF-C03-2/3) -- covered by the exact-rank oracle on complete-factorial data." + COMMON),
+        design_ref="DESIGN.md section 5 C03, section 10",
+        technique="Coq proof: interval-partition theorem for the contrast analysis (partial w.r.t. the tensor bridge); rank oracle; correspondence"),
+    "C04": dict(
+        text=("Theorems (Coq, unbounded arity / level counts / rows): labelled-product theorem (labels and entries of an "
+              "interaction stay aligned, left factor slowest, counts equal), treatment-coded component = indicator "
+              "columns with the reference row zero, whole-term statement for numeric and treatment-coded components, "
+              "levels sorted and duplicate-free." + COMMON),
+        design_ref="DESIGN.md section 5 C04, section 10",
+        technique="Coq proof: labelled Kronecker product / indicator coding; differential correspondence; label-denotation oracle"),
+    "C05": dict(
+        text=("Theorems (Coq, unbounded): a group-specific block is the row-wise Kronecker product of the one-hot group "
+              "row with the effect row (zeros outside the own group, effect values inside), group slowest; labels "
+              "aligned. The choice of effect coding is NOT a theorem: the implementation uses one uniform flag "
+              "(finding KF-C05-1); the rank oracle on crossed data decides it per input." + COMMON),
+        design_ref="DESIGN.md section 5 C05, section 10",
+        technique="Coq proof: one-hot Kronecker block structure; rank oracle on crossed designs; correspondence"),
+    "C06": dict(
+        text=("Theorems (Coq): evaluation of new data is row-wise with frozen levels, contrasts and recorded transform "
+              "parameters, hence selecting rows commutes with evaluation (see property file for the covered call "
+              "shapes); refuted witnesses for the two listed findings (level re-validation, stateless binary)." + COMMON),
+        design_ref="DESIGN.md section 5 C06, section 10",
+        technique="Coq proof: row-locality / frozen state of the prediction pass; correspondence on row multisets of the training frame"),
+    "C07": dict(
+        text=("Theorem (Coq, all histories): the concrete machine (designs + configuration) produces for every "
+              "operation what a fresh state holding only the named design produces (C07_history_refines); designs "
+              "are append-only; bad configuration values are refused. That the implementation is such a machine "
+              "(no hidden mutable state, caller's DataFrame untouched) is established by the correspondence on "
+              "operation histories, not by the theorem." + COMMON),
+        design_ref="DESIGN.md section 5 C07, section 10",
+        technique="Coq proof: refinement of an immutable-design specification over all operation histories; history correspondence"),
+    "C08": dict(
+        text=("Theorems (Coq): the design depends only on the columns the formula uses (column order, unused columns "
+              "and the index are not inputs of the model) and row selection/permutation commutes with term "
+              "construction (see property file for the exact statements proved). The index and pandas-side structure "
+              "are covered by the correspondence (the implementation is fed permuted / re-indexed / re-ordered frames)." + COMMON),
+        design_ref="DESIGN.md section 5 C08, section 10",
+        technique="Coq proof: frame-agreement and row-equivariance lemmas; differential correspondence under frame transformations"),
+    "C09": dict(
+        text=("Theorems (Coq): drop = run on the frame filtered by the incomplete-row mask over the USED columns; error "
+              "iff such a row exists; pass keeps all rows; unused columns irrelevant (see property file). NaN "
+              "propagation through numpy kernels is tied by correspondence." + COMMON),
+        design_ref="DESIGN.md section 5 C09, section 10",
+        technique="Coq proof: missing-value policy as a row filter over used columns; correspondence over missingness patterns"),
+    "C10": dict(
+        text=("Theorems (Coq): error mode raises iff an unseen value occurs; otherwise unseen rows are zero rows of the "
+              "component (hence of every interaction involving it), seen rows unchanged, warning iff mode = warning; "
+              "new groups append exactly one trailing block; slices recomputed contiguously (C17); configuration "
+              "accepts exactly its documented values." + COMMON),
+        design_ref="DESIGN.md section 5 C10, section 10",
+        technique="Coq proof: unseen-level / new-group case analysis of the prediction pass; correspondence over placements and modes"),
+    "C11": dict(
+        text=("Theorems (Coq, chains and stacks of any size): first match wins, undefined iff no scope defines the name, "
+              "the argument chain is data, built-ins, locals, globals, extra; the callee chain is the same without "
+              "data; env = k selects the k-th frame, too deep is an error. CPython frame objects are modelled as a "
+              "stack of (locals, globals); exhaustive correspondence through real nested callers." + COMMON),
+        design_ref="DESIGN.md section 5 C11, section 10",
+        technique="Coq proof: first-match lookup over the documented chain; exhaustive correspondence (2^5 scope subsets x roles x depths)"),
+    "C12": dict(
+        text=("Theorems (Coq): hazard-free Python operator trees printed with minimal parentheses parse (parser "
+              "completeness) to the same tree formulae evaluates; {e} is I(e); refuted witnesses for unary sign before "
+              "**, ** associativity and parenthesis-dropping names (listed findings). Python's own parser/eval is the "
+              "specification of Python (validated by ast.parse in the harness)." + COMMON),
+        design_ref="DESIGN.md section 5 C12, section 10",
+        technique="Coq proof: Python-expression round trip through the formula grammar; correspondence against Python's eval"),
+    "C13": dict(
+        text=("Theorems (Coq/MathComp, every number of levels, every reference/omitted level, every field): treatment "
+              "columns are level indicators with zero reference row; [1|treatment] has full rank (explicit inverse); "
+              "sum columns add to zero with the omitted level -1; [1|sum] has full rank iff the number of levels is "
+              "invertible; full codings span all indicators; all codings of one factor have the same column space; "
+              "entry bridge to the executable model. Lifting to whole design matrices rests on C03's missing tensor "
+              "bridge and is decided by the exact-rank oracle." + COMMON),
+        design_ref="DESIGN.md section 5 C13, section 10",
+        technique="Coq/MathComp proof: explicit inverses and column-space equalities of contrast matrices; exhaustive correspondence n = 1..12"),
+    "C14": dict(
+        text=("Theorems (Coq, exact rationals, sqrt as a function argument): center mean 0; scale mean 0 / variance 1; "
+              "same affine map later; bs column count, non-negativity and partition of unity inside the boundary knots "
+              "(de Boor-Cox recurrence, any degree, any sorted knots) and everywhere when inner knots are strictly "
+              "inside; every invalid parameter combination refused; poly orthonormal and orthogonal to the constant "
+              "given d+1 distinct abscissae; raw = powers. Floating point and scipy's splev are tied by tolerance "
+              "correspondence; finding KF-C14-1 (inner knot on the boundary)." + COMMON),
+        design_ref="DESIGN.md section 5 C14, section 10",
+        technique="Coq proof over exact rationals of the transforms' contracts; tolerance correspondence against numpy/scipy"),
+    "C15": dict(
+        text=("Theorems (Coq): numeric response returned unchanged; categorical response = one indicator per level in "
+              "sorted/declared order; y[level] = one 0/1 column; prop = successes/trials with validation; the response "
+              "must be a single one-component term (see property file). Independence of the predictors from the "
+              "response is decided by the oracle and the correspondence." + COMMON),
+        design_ref="DESIGN.md section 5 C15, section 10",
+        technique="Coq proof: response coding lemmas; correspondence over 23 response forms x right-hand sides"),
+    "C16": dict(
+        text=("Theorems (Coq): aliases are equal model functions and bind to the same objects in the regenerated "
+              "TRANSFORMS registry (Tie.v); binary/offset/I specifications (see property file). Prediction-time "
+              "behaviour of offset and prop is decided by the oracle and the correspondence." + COMMON),
+        design_ref="DESIGN.md section 5 C16, section 10",
+        technique="Coq proof: alias equalities + registry tie; correspondence of helper calls at training and prediction time"),
+    "C17": dict(
+        text=("Theorems (Coq): slices computed from widths are contiguous from 0 in term order and cover the columns, "
+              "also for the widened group matrix returned by evaluate_new_data; stacked width = sum of block widths. "
+              "Views (__getitem__, as_dataframe, __array__, unpacking, str/repr) are Python glue decided by the oracle." + COMMON),
+        design_ref="DESIGN.md section 5 C17, section 10",
+        technique="Coq proof: slice contiguity invariant; container-consistency oracle over derived objects"),
 }
 
 WIP = "model/theorems/correspondence under construction (see DESIGN.md section 8); not claimed yet"
